@@ -51,6 +51,9 @@ struct Shared {
     /// the kind of the injected read error (r<k>)
     rkind: Option<io::ErrorKind>,
     werr: bool,
+    /// w<k> with k >= 1: writes do not fail, they take nothing (Ok(0)): write_all reports that as an error (WriteZero)
+    wzero: bool,
+    zero_writes: usize,
     written: Vec<u8>,
     waker: Option<Waker>,
     dropped: bool,
@@ -174,6 +177,13 @@ impl AsyncRead for Transport {
 impl AsyncWrite for Transport {
     fn poll_write(self: Pin<&mut Self>, _cx: &mut Context<'_>, buf: &[u8]) -> Poll<io::Result<usize>> {
         let mut s = self.0.lock().unwrap();
+        if s.werr && s.wzero {
+            s.zero_writes += 1;
+            if s.zero_writes > 10_000 {
+                panic!("the transport answered Ok(0) to 10000 writes in a row and the writer keeps trying: it spins forever");
+            }
+            return Poll::Ready(Ok(0));
+        }
         if s.werr {
             return Poll::Ready(Err(io::Error::new(io::ErrorKind::BrokenPipe, "injected write error")));
         }
@@ -518,7 +528,9 @@ impl Driver {
                 wake_reader(&self.shared);
             }
             b'w' => {
-                self.shared.lock().unwrap().werr = true;
+                let mut sh = self.shared.lock().unwrap();
+                sh.werr = true;
+                sh.wzero = id >= 1;
             }
             b'p' => {
                 self.shared.lock().unwrap().wpaused = true;
